@@ -58,7 +58,7 @@ ASSUMPTIONS = [
 
 LIB = {
     'datetime.datetime.strptime': ('ValueError',),
-    're.compile': ('re.error',),
+    're.compile': ('re.error', 'OverflowError'),     # an oversized repetition count
 }
 EXEMPT_PARAM_ASSERTS = {
     # default_env is built from IRGenerator.data_types, a list of DataType subclasses, and
@@ -179,6 +179,7 @@ def run(pm, ctx):
     ast_field_totality(pm, ctx)
     lexer_state_stack(pm, ctx)
     import_self_precondition(pm, ctx)
+    belief_contradictions(pm, ctx)
 
     implicit = implicit_sites(pm, ctx, reach, irf)
     dead_defaults = {}
@@ -1270,3 +1271,142 @@ def import_self_precondition(pm, ctx):
                           'trips the assertion (AssertionError, not a spec error)' % f.short,
                       key='%s|%s|import-self' % (rule, f.qualname))
     ctx.floor(rule, n, 4, 'calls of add_imported_namespace')
+
+
+def belief_contradictions(pm, ctx):
+    """R13-R15: three contradiction rules (Engler): what one path of a function believes
+    about a value, another path of the same function must not ignore (F57-F61)."""
+    # R13: a value the function compares with None is not handed, unguarded, to an operation
+    # that raises on None (float()/int()/len(), a numeric %-format / {:f} operand)
+    ctx.rule('C03-R13', 'a value the function tests against None is not passed unguarded to '
+                        'float()/int()/len() or a numeric format')
+    n13 = 0
+    funcs = list(pm.funcs_in('stone.frontend')) + list(pm.funcs_in('stone.ir'))
+    for f in funcs:
+        tested = set()
+        assigned = set()
+        for n in own_nodes(f.node):
+            if isinstance(n, ast.Compare) and len(n.ops) == 1 and \
+                    isinstance(n.ops[0], (ast.Is, ast.IsNot)) and \
+                    isinstance(n.comparators[0], ast.Constant) and n.comparators[0].value is None:
+                tested.add(unparse(n.left))
+            if isinstance(n, (ast.Attribute, ast.Name)) and isinstance(n.ctx, ast.Store):
+                assigned.add(unparse(n))
+        if not tested:
+            continue
+        pi = path_info(f.node)
+        for c in own_nodes(f.node):
+            uses = []
+            if isinstance(c, ast.Call) and isinstance(c.func, ast.Name) and \
+                    c.func.id in ('float', 'int', 'len') and c.args:
+                uses.append(c.args[0])
+            if isinstance(c, ast.Call) and isinstance(c.func, ast.Attribute) and \
+                    c.func.attr == 'format' and isinstance(c.func.value, ast.Constant) and \
+                    isinstance(c.func.value.value, str):
+                import re as _re
+                specs = _re.findall(r'\{[^}]*\}', c.func.value.value)
+                for spec, a in zip(specs, c.args):
+                    if spec.endswith((':f}', ':d}')) or ':.' in spec:
+                        uses.append(a)
+            if isinstance(c, ast.BinOp) and isinstance(c.op, ast.Mod) and \
+                    isinstance(c.left, ast.Constant) and isinstance(c.left.value, str):
+                import re as _re
+                specs = _re.findall(r'%[-+ #0-9.]*([a-zA-Z%])', c.left.value)
+                specs = [x for x in specs if x != '%']
+                ops = list(c.right.elts) if isinstance(c.right, ast.Tuple) else [c.right]
+                for spec, a in zip(specs, ops):
+                    if spec in 'dfeEgGxXo':
+                        uses.append(a)
+            for a in uses:
+                t = unparse(a)
+                if t not in tested:
+                    continue
+                # a value the function itself rebinds after the test is another value
+                if t in assigned and not isinstance(a, ast.Name):
+                    continue
+                n13 += 1
+                ok = False
+                for e, pol in pi.at(c):
+                    if isinstance(e, ast.Compare) and len(e.ops) == 1 and unparse(e.left) == t and \
+                            isinstance(e.comparators[0], ast.Constant) and \
+                            e.comparators[0].value is None and \
+                            (isinstance(e.ops[0], ast.IsNot) == pol):
+                        ok = True
+                    elif pol and unparse(e) == t:
+                        ok = True
+                    elif pol and isinstance(e, ast.Call) and call_name(e) == 'isinstance' and \
+                            unparse(e.args[0]) == t:
+                        ok = True
+                    elif pol and isinstance(e, ast.Compare) and any(
+                            isinstance(o, (ast.Lt, ast.Gt, ast.LtE, ast.GtE)) for o in e.ops) and \
+                            t in [unparse(e.left)] + [unparse(x) for x in e.comparators]:
+                        ok = True       # the ordering comparison succeeded: not None
+                for tr, part, k in pi.trys_at(c):
+                    if part == 'body' and any(h.type is None or 'TypeError' in unparse(h.type) or
+                                              unparse(h.type) == 'Exception' for h in tr.handlers):
+                        ok = True
+                ctx.check('C03-R13', ok, '%s: %s is known not to be None where it is converted / '
+                                         'formatted' % (f.short, t),
+                          '%s:%d' % (f.module.relpath, c.lineno),
+                          msg='%s tests %s against None elsewhere but hands it to %s without that '
+                              'test on the path: TypeError for the None case, not a spec error' % (
+                                  f.short, t, unparse(c)[:60]),
+                          key='C03-R13|%s|%s' % (f.qualname, t))
+    ctx.floor('C03-R13', n13, 1, 'None-tested values that reach a conversion or numeric format')
+    # R14: `d[k]` chosen by a test that does not imply `k in d`
+    ctx.rule('C03-R14', 'a subscript d[k] in the arm of a conditional expression is chosen by '
+                        '`k in d` itself, not by a weaker test, when membership is only one '
+                        'disjunct of the enclosing condition')
+    n14 = 0
+    for f in funcs:
+        pi = None
+        for s in own_nodes(f.node):
+            if not (isinstance(s, ast.Subscript) and isinstance(s.ctx, ast.Load)):
+                continue
+            par = getattr(s, '_parent', None)
+            if not (isinstance(par, ast.IfExp) and par.body is s):
+                continue
+            key = (unparse(s.slice), unparse(s.value))
+            pi = pi or path_info(f.node)
+            disj = False
+            for e, pol in pi.conds.get(id(pi.stmt_containing(s)), ()):
+                if pol and isinstance(e, ast.BoolOp) and isinstance(e.op, ast.Or) and any(
+                        isinstance(v, ast.Compare) and len(v.ops) == 1 and
+                        isinstance(v.ops[0], ast.In) and
+                        (unparse(v.left), unparse(v.comparators[0])) == key for v in e.values):
+                    disj = True
+            if not disj:
+                continue
+            n14 += 1
+            t = par.test
+            ok = isinstance(t, ast.Compare) and len(t.ops) == 1 and isinstance(t.ops[0], ast.In) \
+                and (unparse(t.left), unparse(t.comparators[0])) == key
+            ctx.check('C03-R14', ok, '%s: %s selected by its own membership test' % (
+                f.short, unparse(s)), '%s:%d' % (f.module.relpath, s.lineno),
+                msg='%s reads %s when `%s` holds, but the path only guarantees `%s in %s` or '
+                    'something else: KeyError, not a spec error' % (
+                        f.short, unparse(s), unparse(t), key[0], key[1]),
+                key='C03-R14|%s|%s' % (f.qualname, unparse(s)))
+    ctx.floor('C03-R14', n14, 1, 'subscripts selected inside a membership disjunction')
+    # R15: token text is converted to a number only under a ValueError handler
+    ctx.rule('C03-R15', 'the lexer converts digit strings with int() only under a ValueError '
+                        'handler (the interpreter refuses very long digit strings)')
+    n15 = 0
+    for f in pm.funcs_in('stone.frontend.lexer'):
+        pi = None
+        for c in own_nodes(f.node):
+            if isinstance(c, ast.Call) and isinstance(c.func, ast.Name) and c.func.id == 'int' and \
+                    c.args and 'value' in unparse(c.args[0]):
+                n15 += 1
+                pi = pi or path_info(f.node)
+                ok = any(part == 'body' and any(
+                    h.type is None or 'ValueError' in unparse(h.type) or
+                    unparse(h.type) == 'Exception' for h in tr.handlers)
+                    for tr, part, k in pi.trys_at(c))
+                ctx.check('C03-R15', ok, '%s converts the token text under a ValueError handler'
+                          % f.short, '%s:%d' % (f.module.relpath, c.lineno),
+                          msg='%s calls int() on token text outside a ValueError handler: a digit '
+                              'string beyond the interpreter\'s conversion limit raises ValueError, '
+                              'not a spec error' % f.short,
+                          key='C03-R15|%s|int' % f.qualname)
+    ctx.floor('C03-R15', n15, 1, 'int() conversions of token text')
